@@ -55,7 +55,7 @@ class Explored:
 
 
 def explore(progs, wd, depth=4, max_paths=40, seed=7, fuel=20000, prelude=None, obs=None, name="base",
-            flavour="debug"):
+            flavour="debug", turns=False):
     """runs the explore mode of inkdrive; returns list of Explored (one per usable program) and counts"""
     scs = []
     for i, p in enumerate(progs):
@@ -85,9 +85,11 @@ def explore(progs, wd, depth=4, max_paths=40, seed=7, fuel=20000, prelude=None, 
                 cur.setdefault(tuple(r["path"]), []).append(r)
         bad = False
         for path in sorted(cur, key=lambda t: (len(t), t)):
-            new = cur[path]
+            new = relational.collapse_turns(cur[path]) if turns else cur[path]
             if any(r.get("res") in ("panic", "skipped") or "obs_panic" in r for r in new):
                 bad = True
+            if len(cur[path]) > 450:
+                bad = True   # a turn that never ends
             if any("VERIF-FUEL" in e for r in new for e in ((r.get("obs") or {}).get("errors") or [])):
                 bad = True   # a runaway story: step counts, not behaviour, would be compared
             parent = ex.paths.get(path[:-1]) if path else None
